@@ -50,9 +50,13 @@ def read_designs(p, k, T):
             reads.append((h, 0, 1, 2))
             reads.append((h, 2, k - 1, 2))
         out.append(("gap", reads))
-    if T and k >= 3:
-        # one read with a single wrong allele is built by the caller (error slice)
-        pass
+    # the first variant is covered only by two-variant reads, the rest by longer ones (matters with --min-overlap 3)
+    if k >= 4:
+        reads = []
+        for h in range(p):
+            reads.append((h, 0, 1, 1))
+            reads.append((h, 1, k - 1, 1))
+        out.append(("shortlead", reads))
     return out
 
 
@@ -127,6 +131,14 @@ def worlds(tier):
                     w["haps"]["S1"]["chrC"] = [list(e[0])] + [[1] * p for _ in e[1:]]
                     w["reads"] += [{"sample": "S1", "chrom": "chrC", "hap": h, "segs": [[0, len(e) - 1, 6, 6]], "n": 2} for h in range(p)]
                     yield inst
+    # --min-overlap 3: reads covering fewer than three variants are dropped (variants they alone cover stay unphased)
+    for p, k in [(2, 4), (3, 4), (4, 4)] + ([(3, 5)] if T else []):
+        mats = list(hap_matrices(p, k))
+        mats = mats[:: max(1, len(mats) // (150 if T else 40))]
+        for m in mats:
+            for dname, reads in read_designs(p, k, T):
+                for B in (0, 4):
+                    yield mk(seed, p, k, m, dname, reads, dict(block_cut_sensitivity=B, tag="PS", min_overlap=3), extra=False)
     # pre-phasing and distrust (pass-through clauses only under distrust)
     for p, k in [(3, 4), (4, 3)]:
         mats = list(hap_matrices(p, k))[:: 40 if not T else 10]
@@ -277,7 +289,9 @@ def judge(inst):
             if r["chrom"] != "chrA":
                 continue
             a_, b_ = r["segs"][0][0], r["segs"][0][1]
-            covered.update(i for i in het if a_ <= i <= b_)
+            cov = [i for i in het if a_ <= i <= b_]
+            if len(cov) >= max(2, opts.get("min_overlap", 2)):
+                covered.update(cov)
         Vlist = sorted(covered)
         Vpos = [pos_of[i] for i in Vlist]
         sets = {}
